@@ -185,7 +185,7 @@ func main() {
 			emit(w, o, id, "catalogue", cc.c)
 		}
 	}
-	n := o.Count(450, 12000)
+	n := o.Count(900, 15000)
 	for i := 0; i < n; i++ {
 		id := fmt.Sprintf("rnd/%d", i)
 		if !o.Want(id) {
